@@ -71,18 +71,20 @@ class BaseCtx:
 
 
 class ReplayCtx(BaseCtx):
+    """Feeds recorded draws back by label (FIFO per label), so a replay does not depend on the order in which
+    independent draws happen (e.g. asyncio starting guard coroutines in a different order in another process)."""
+
     def __init__(self, draws):
         super().__init__()
-        self._feed = list(draws)
-        self._pos = 0
+        self._feed = {}
+        for lab, val in draws:
+            self._feed.setdefault(lab, []).append(val)
 
     def _next(self, label, kind):
-        if self._pos >= len(self._feed):
-            raise HarnessError(f"replay ran out of draws at {label}")
-        lab, val = self._feed[self._pos]
-        if lab != label:
-            raise HarnessError(f"replay draw mismatch: recorded {lab!r}, harness asks {label!r}")
-        self._pos += 1
+        q = self._feed.get(label)
+        if not q:
+            raise Ignore()  # this run asks for a value the recorded path never drew: not the recorded scenario
+        val = q.pop(0)
         self.draws.append([label, val])
         return val
 
